@@ -28,11 +28,19 @@ FEATS = [
 
 def worker(ctx, job):
     from vf.flo import runner, monitors
+    variants = []
     for seed, fi in job["items"]:
         rng = random.Random(seed)
         prog = gen.nested_condaux_program(rng) if fi % len(FEATS) == 3 else gen.gen_program(rng, gen.pickfeat(FEATS, fi))
-        text = P.render(prog)
-        res = runner.run_text(text, maxticks=prog["ticks"] + 12, post=True)
+        variants.append((prog, None))
+        p2, alias = gen.cloneify(prog, random.Random(seed ^ 0x5EED))
+        if alias:
+            variants.append((prog, (p2, alias)))
+    for prog, cloned in variants:
+        text = P.render(cloned[0] if cloned else prog)
+        res = runner.run_text(text, maxticks=prog["ticks"] + 12, post=True, alias=cloned[1] if cloned else None)
+        if cloned:
+            ctx.hit("cloned_aux_variants")
         if not res.built:
             ctx.inconclusive_case("generated program did not build: %s" % (res.build_msgs[-1:],))
             continue
